@@ -449,6 +449,10 @@ func init() {
 		n := m.concInt(args[0], fr)
 		return m.makeSlice(types.Typ[types.Uint8], int(n), int(n))
 	}
+	ident := func(m *Machine, fr *frame, fn *ssa.Function, args []value) value { return args[0] }
+	stubs["internal/stringslite.Clone"] = ident
+	stubs["strings.Clone"] = ident
+	stubs["strconv.cloneString"] = ident
 	stubs["os.Exit"] = func(m *Machine, fr *frame, fn *ssa.Function, args []value) value {
 		m.exitCode = int(m.concInt(args[0], fr))
 		m.exited = true
